@@ -251,7 +251,7 @@ impl Property for C10 {
         check(s)
     }
     fn valid(s: &Scenario) -> bool {
-        KINDS.contains(&s.kind) && dom::grid(s.unit) && dom::t0_span(s.t0) && s.shift.abs() <= 1_000_000_000_000_000 && s.events.len() <= 64 && (s.wrong_unit.is_none() || (required_unit(s.kind).is_some() && dom::grid(s.wrong_unit.unwrap())))
+        KINDS.contains(&s.kind) && dom::grid(s.unit) && dom::t0_span(s.t0) && s.shift.unsigned_abs() <= 1_000_000_000_000_000 && s.events.len() <= 64 && (s.wrong_unit.is_none() || (required_unit(s.kind).is_some() && dom::grid(s.wrong_unit.unwrap())))
             && s.events.iter().all(|e| match e {
                 Ev::P(v, dt) => dom::moderate(*v) && dom::dt_pos(*dt),
                 Ev::A => true,
